@@ -84,3 +84,39 @@ def kind_of(arr):
 def describe(x):
     x = numpy.asarray(x)
     return '{}{}{}'.format(kind_of(x), list(x.shape), numpy.round(x, 6).tolist() if x.size <= 12 else '...')
+
+
+class _SimplifyAlarm(Exception):
+    pass
+
+
+def simplifies(node, budget=20000, seconds=30):
+    '''True iff the simplifier terminates normally on this node (or nest of nodes).  Non-termination / rewrite cycles are C01's
+    subject; the other IR checks skip such programs (counted) instead of hanging in a compile that simplifies internally.'''
+    import signal
+    nodes = list(_flatten(node))
+
+    def on_alarm(signum, frame):
+        raise _SimplifyAlarm()
+    old = signal.signal(signal.SIGALRM, on_alarm)
+    signal.alarm(seconds)
+    try:
+        with rewrite_budget(budget):
+            for n in nodes:
+                n.simplified
+        return True
+    except (_SimplifyAlarm, Diverged, RecursionError, MemoryError):
+        return False
+    except Exception:
+        return False
+    finally:
+        signal.alarm(0)
+        signal.signal(signal.SIGALRM, old)
+
+
+def _flatten(node):
+    if isinstance(node, (tuple, list)):
+        for n in node:
+            yield from _flatten(n)
+    else:
+        yield node
